@@ -4,6 +4,9 @@ package main
 
 import (
 	"fmt"
+	"image"
+	"image/color"
+	"image/draw"
 	"unicode/utf8"
 
 	"github.com/makiuchi-d/gozxing"
@@ -77,7 +80,36 @@ func c01RoundTrip(r *fw.Rec, o c01Opts, class string) bool {
 		r.Violation("roundtrip", "qr.writer:refused-fitting-content:"+class, fmt.Sprintf("QRCodeWriter.Encode refused a fitting text (%s): %v", class, werr), info)
 		return false
 	}
-	bmp, berr := gozxing.NewBinaryBitmapFromImage(img)
+	// the rendered image is handed to the reader as it is (a BitMatrix is an image.Image), or
+	// the way an application would have it after saving / compositing: as a Gray, RGBA or NRGBA
+	// picture, packed or as a SubImage view of a larger canvas (origin and stride differ)
+	var pic image.Image = img
+	if k := r.Rng.Intn(8); k < 4 && img.GetWidth()*img.GetHeight() <= 1<<20 {
+		ox, oy := r.Rng.Intn(6), r.Rng.Intn(6)
+		if k%2 == 0 {
+			ox, oy = 0, 0
+		}
+		rect := image.Rect(ox, oy, ox+img.GetWidth(), oy+img.GetHeight())
+		full := image.Rect(0, 0, rect.Max.X+ox, rect.Max.Y+oy)
+		var canvas draw.Image
+		switch k / 2 {
+		case 0:
+			canvas = image.NewGray(full)
+		default:
+			if r.Rng.Bool() {
+				canvas = image.NewRGBA(full)
+			} else {
+				canvas = image.NewNRGBA(full)
+			}
+		}
+		draw.Draw(canvas, full, image.NewUniform(color.Gray{0x40}), image.Point{}, draw.Src)
+		draw.Draw(canvas, rect, img, image.Point{}, draw.Src)
+		pic = canvas.(interface {
+			SubImage(image.Rectangle) image.Image
+		}).SubImage(rect)
+		r.Tally("image_path_through_go_image_types")
+	}
+	bmp, berr := gozxing.NewBinaryBitmapFromImage(pic)
 	if berr != nil {
 		r.Violation("roundtrip", "qr.image-path:bitmap-error", fmt.Sprintf("NewBinaryBitmapFromImage: %v", berr), info)
 		return false
@@ -130,7 +162,7 @@ func c01Size(rng *fw.Rand, v int, margin int) (int, int) {
 }
 
 func c01(c *fw.Ctx) {
-	c.Rule("boundary enumeration: every (version 1..40, level, mode) with length capacity and capacity-1 under a forced version, and capacity and capacity+1 with no version hint (the latter must land on the next version), masks rotating 0..7/none; random classes: digits, 45-set, byte mode with every value 0..255 (ISO-8859-1 hint), UTF-8 without hint (1-4 byte sequences, NUL, controls, U+FEFF, astral), every registered charset with text from its repertoire, Shift_JIS double-byte (kanji mode); both decode paths (encoder matrix -> decoder; writer image at random sizes/margins -> pure-barcode reader); distinct = distinct (text, options)")
+	c.Rule("boundary enumeration: every (version 1..40, level, mode) with length capacity and capacity-1 under a forced version, and capacity and capacity+1 with no version hint (the latter must land on the next version), masks rotating 0..7/none; random classes: digits, 45-set, byte mode with every value 0..255 (ISO-8859-1 hint), UTF-8 without hint (1-4 byte sequences, NUL, controls, U+FEFF, astral), every registered charset with text from its repertoire, Shift_JIS double-byte (kanji mode); both decode paths (encoder matrix -> decoder; writer image at random sizes/margins -> pure-barcode reader); distinct = distinct (text, options) Half of the rendered images reach the reader as Gray / RGBA / NRGBA pictures, packed or as SubImage views of a larger canvas.")
 	c.Assume("'fits' is decided by qrref capacities (ISO 18004 tables), not by the library; charset hints are only combined with text drawn from that charset's repertoire (x/text codec round trip)")
 	// (a) boundaries
 	for v := 1; v <= 40; v++ {
@@ -308,6 +340,7 @@ func c01(c *fw.Ctx) {
 	}
 	c.Floor("matrix_path_ok", 2500)
 	c.Floor("image_path_ok", 2500)
+	c.Floor("image_path_through_go_image_types", 1000)
 	for _, cl := range []string{"digits", "alphanumeric", "latin1-all-bytes", "utf8-nohint", "utf8-nohint-leading-feff", "kanji", "boundary-numeric", "boundary-alphanumeric", "boundary-byte", "boundary-kanji"} {
 		c.Floor("class_"+cl, 50)
 	}
